@@ -47,6 +47,7 @@ class Effect:
     lid: int = 0
     lineno: int = 0
     pure: bool = True
+    recv_tags: object = None
 
 
 @dataclass
